@@ -9,10 +9,10 @@ import (
 	"github.com/kubewharf/kubebrain/zz_verif/rt/vrt"
 )
 
-func Now() Time                { return vrt.Now() }
-func Since(t Time) Duration    { return Now().Sub(t) }
-func Until(t Time) Duration    { return t.Sub(Now()) }
-func Sleep(d Duration)         { vrt.Sleep(d) }
+func Now() Time                    { return vrt.Now() }
+func Since(t Time) Duration        { return Now().Sub(t) }
+func Until(t Time) Duration        { return t.Sub(Now()) }
+func Sleep(d Duration)             { vrt.Sleep(d) }
 func After(d Duration) <-chan Time { return NewTimer(d).C }
 func Tick(d Duration) <-chan Time  { return NewTicker(d).C }
 
